@@ -3,6 +3,7 @@ import BevySyncModel.Props.C11
 import BevySyncModel.Props.C12
 import BevySyncModel.Props.C13
 import BevySyncModel.Props.C14
+import BevySyncModel.Props.C15
 import BevySyncModel.Props.C16
 import BevySyncModel.Props.C17
 import BevySyncModel.Props.C01
